@@ -224,6 +224,9 @@ func genValidSpec(r *hx.R, fp string, rich bool) *specs.Spec {
 			richEdits(r, &s.ContainerEdits, fp)
 		}
 	}
+	if v, err := specs.MinimumRequiredVersion(s); err == nil {
+		s.Version = v
+	}
 	return s
 }
 
@@ -242,6 +245,7 @@ func richEdits(r *hx.R, e *specs.ContainerEdits, tag string) {
 	if r.Chance(0.3) {
 		e.Env = append(e.Env, hx.Pick(r, []string{"SHARED=", "COMMON="})+tag)
 	}
+	hostRichEdits(r, e)
 }
 
 var specNames = []string{"a.json", "b.yaml", "c.json", "d.yaml", ".json"}
